@@ -1,10 +1,12 @@
 (* C14 - deadlock detection is complete for sequential ask cycles.
    Proved here: the walk decides reachability in the wait-for graph exactly (no step bound is
    too small, whatever the cycle length), and ask panics - instead of waiting - exactly when the
-   new edge would close a cycle in the tracked graph, the lock being released first.  That the
-   tracked graph contains the edge of every in-flight ask made from a hook is tied by the
-   correspondence (the graph is read through the verification hook at every quiescent point). *)
-From RS Require Import Tactics Graph StepCases Refs NF.
+   new edge would close a cycle in the tracked graph, the lock being released first; and, for every
+   reachable state, the tracked graph contains the edge of every ask begun by a hook that has not
+   yet returned to it, so a chain of such asks of any length leading back to the asker is detected
+   (C14_complete_run).  Uniqueness of ids (fewer than 2^64 - 1 spawns) is a premise: the graph is
+   keyed by id. *)
+From RS Require Import Tactics Graph StepCases Refs NF GraphInv.
 
 Theorem C14_has_path_spec : forall g from to,
   has_path g from to = true <-> exists k, 1 <= k /\ iter_edge g k from = Some to.
@@ -30,6 +32,25 @@ Proof.
   - rewrite E. reflexivity.
 Qed.
 
+(* with the detector on, an unfinished ask begun by a hook is tracked ... *)
+Theorem C14_inflight_asks_are_tracked : forall f ls, tr_ok (run f ls).
+Proof. exact tr_ok_run. Qed.
+
+(* ... and a tracked operation that has not returned has its edge in the graph, whose keys are unique *)
+Theorem C14_tracked_has_edge : forall f ls, few (run f ls) -> forall o p,
+  get_op (run f ls) o = Some p -> o_tracked p = true ->
+  exists b xb xt, edge_wit (run f ls) (a_id xb) (a_id xt) o p b xb xt /\ In (a_id xb, a_id xt) (s_graph (run f ls)).
+Proof. exact run_tracked_has_edge. Qed.
+
+(* completeness over the real wait-for relation: if actor c (transitively, through hooks of any
+   actors and any number of hops) awaits actor b, or b = c, then an ask from b's hook to c panics *)
+Theorem C14_complete_run : forall f ls, few (run f ls) -> f_dd (s_feat (run f ls)) = true ->
+  forall k caller x b y c,
+  k = KAsk -> caller = Some b -> get_actor (run f ls) b = Some y -> get_actor (run f ls) c = Some x ->
+  (b = c \/ reaches f ls c b) ->
+  exists cyc, dd_check (run f ls) k caller x = DDPanic b cyc.
+Proof. exact run_detects_cycle. Qed.
+
 (* non-vacuity: a three-actor cycle A -> B -> C -> A, the closing ask panics with the cycle text *)
 Definition dd_feats := mkFeats true false false false.
 Definition c14_example : list label :=
@@ -43,7 +64,20 @@ Example C14_example_run :
   option_map a_pc (get_actor (run dd_feats c14_example) 2) = Some PPanicked.
 Proof. vm_compute. split; [tauto|reflexivity]. Qed.
 
+(* in the state before the closing ask: actor 0 awaits 1, 1 awaits 2 - so 0 reaches 2 *)
+Example C14_example_reaches :
+  let s := run dd_feats (removelast c14_example) in
+  s_graph s = [(2, 3); (1, 2)]%N /\
+  map (fun o => option_map (fun p => (o_caller p, o_tgt p, is_done (o_ph p), o_tracked p)) (get_op s o)) [2; 3] =
+  [Some (Some 0, 1, false, true); Some (Some 1, 2, false, true)].
+Proof. vm_compute. split; reflexivity. Qed.
+
 Check C14_has_path_spec. Check C14_complete. Check C14_panic_is_not_a_wait.
+Check C14_inflight_asks_are_tracked. Check C14_tracked_has_edge. Check C14_complete_run.
+Print Assumptions C14_inflight_asks_are_tracked.
+Print Assumptions C14_tracked_has_edge.
+Print Assumptions C14_complete_run.
+Print Assumptions C14_example_reaches.
 Print Assumptions C14_has_path_spec.
 Print Assumptions C14_complete.
 Print Assumptions C14_panic_is_not_a_wait.
